@@ -685,3 +685,110 @@ func runSaltPool(e *core.Env) {
 		}
 	})
 }
+
+// ---- SaltPool with out-of-order clock readings ----
+
+func init() { core.Register("C03", "saltpool-time", runSaltPoolTime) }
+
+// HandleStream reads the clock before it takes the pool's lock, so concurrent handshakes hand Add clock readings
+// that are not monotone: a handshake that stalls between the reading and the Add inserts "in the past". The part
+// drives one pool sequentially with such readings (small steps back after mostly forward moves, jumps to the
+// edges of the 60 s retention) and holds it against the only thing a caller relies on: a salt added with reading t
+// is refused again as long as no reading of t+60 s or more has been handed to the pool (neither by this call nor by
+// an earlier one), whatever else was added or pruned in between. (A call that arrives with an old reading after a
+// newer reading has already expired the salt is accepted by the pool; seen from the server that acceptance happens
+// at an instant >= t+60 s, which the statement covers only up to the timestamp's own validity - finding F1.)
+func runSaltPoolTime(e *core.Env) {
+	rec := e.Rec
+	rec.Rule("saltpool-time: one case = a sequential history of 30..200 SaltPool.Add(now, s)/Contains(s) calls on 2..6 salts where now moves forward by steps from {0, 0.5 s, 1 s, 2 s, 30 s, 57..61 s} and sometimes back by up to 3 s (out-of-order insertion as stalled concurrent handshakes produce); model: salt -> reading of its accepted Add; class = (salts, back-steps taken, re-adds after expiry, refusals inside the window)")
+	n := e.N(4000, 400000)
+	core.Parallel(e, "saltpool-time", n, 8, func(i int) {
+		r := core.NewRNG(e.Seed, "c03.saltpool-time", i)
+		ns := r.Range(2, 6)
+		nops := r.Pick(30, 80, 200)
+		rec.Begin("saltpool-time", i, fmt.Sprintf("salts=%d ops=%d", ns, nops))
+		rec.Eval()
+		var pool ss2022.SaltPool
+		salts := make([][32]byte, ns)
+		for k := range salts {
+			copy(salts[k][:], r.Bytes(32))
+		}
+		base := time.Unix(1700000000, 0)
+		cur := time.Duration(0)      // furthest reading generated so far
+		maxDone := time.Duration(-1) // furthest reading an Add has been called with
+		added := map[int]time.Duration{}
+		var trace []string
+		backs, readds, refusals := 0, 0, 0
+		for k := 0; k < nops; k++ {
+			step := time.Duration(r.Pick(0, 0, 500, 1000, 1000, 2000, 30000, 57000, 58000, 59000, 59500, 60000, 61000)) * time.Millisecond
+			cur += step
+			now := cur
+			if r.Chance(1, 3) {
+				now -= time.Duration(r.Pick(1, 500, 1000, 2000, 3000)) * time.Millisecond
+				if now < 0 {
+					now = 0
+				}
+				backs++
+			}
+			s := r.Intn(ns)
+			if r.Chance(1, 5) {
+				got := pool.Contains(salts[s])
+				trace = append(trace, fmt.Sprintf("Contains(s%d)=%v", s, got))
+				if t, ok := added[s]; ok && t+ss2022.ReplayWindowDuration > maxDone && !got {
+					rec.Violate("saltpool-time", i, core.Sig("kind", "salt_forgotten_early", "part", "saltpool-time", "op", "contains"), tailOf(trace, 40),
+						"case %d: salt s%d was added with reading %v; the furthest reading handed to the pool is %v (< +60 s) and the pool no longer contains it", i, s, t, maxDone)
+					return
+				}
+				continue
+			}
+			got := pool.Add(base.Add(now), salts[s])
+			trace = append(trace, fmt.Sprintf("Add(%v, s%d)=%v", now, s, got))
+			t, ok := added[s]
+			maxDone = max(maxDone, now)
+			switch {
+			case ok && maxDone < t+ss2022.ReplayWindowDuration:
+				if got {
+					rec.Violate("saltpool-time", i, core.Sig("kind", "salt_forgotten_early", "part", "saltpool-time", "op", "add"), tailOf(trace, 40),
+						"case %d: salt s%d was accepted with reading %v and accepted again with reading %v (%v later; no reading handed to the pool reached +60 s, the furthest was %v)", i, s, t, now, now-t, maxDone)
+					return
+				}
+				refusals++
+			case !ok:
+				if !got {
+					rec.Violate("saltpool-time", i, core.Sig("kind", "fresh_salt_refused", "part", "saltpool-time"), tailOf(trace, 40),
+						"case %d: salt s%d was never added and is refused", i, s)
+					return
+				}
+				added[s] = now
+			default:
+				// past its retention: either answer is acceptable; an accepted Add starts a new retention
+				if got {
+					added[s] = now
+					readds++
+				}
+			}
+		}
+		rec.Count("saltpool_time_ops", int64(nops))
+		rec.Class("salts=%d/backs=%s/readds=%s/refusals=%s", ns, bucket(backs), bucket(readds), bucket(refusals))
+	})
+}
+
+func bucket(n int) string {
+	switch {
+	case n == 0:
+		return "0"
+	case n < 4:
+		return "1-3"
+	case n < 16:
+		return "4-15"
+	default:
+		return "16+"
+	}
+}
+
+func tailOf(s []string, n int) []string {
+	if len(s) > n {
+		return s[len(s)-n:]
+	}
+	return s
+}
